@@ -507,6 +507,10 @@ class Project(MessageHandler):
                     task[("start", scIdx)] = end
                     task[("scheduled", scIdx)] = True
                 elif start and end:
+                    if start > end or (is_explicit_milestone and start != end):
+                        # Contradictory dates (a start after the end, a milestone with two
+                        # different dates): left to the main loop, which reports the task
+                        continue
                     task[("scheduled", scIdx)] = True
                 # else: milestone with no dates - let it be scheduled by the main loop
 
